@@ -39,6 +39,7 @@ struct Shared {
     pairs_checked: AtomicU64,
     rejected_cmds: AtomicU64,
     accepted_cmds: AtomicU64,
+    spelled_states: AtomicU64,
     violations: Mutex<Vec<Value>>,
     classes: Mutex<BTreeMap<String, u64>>,
     samples: Mutex<Vec<Value>>,
@@ -83,6 +84,10 @@ fn process(sh: &Shared, cmds: &[Value], line_no: usize, line: &Value, pool: &mut
     }
     let before = cfg_of(&st);
     let outs = line.get("out").and_then(|o| o.as_array());
+    // vacuity guard of the spelling dimension: states holding a certificate whose text is not in the standard spelling
+    if want["crt"].as_array().map(|a| a.iter().any(|x| x.get("sp").is_some())).unwrap_or(false) {
+        sh.spelled_states.fetch_add(1, Ordering::Relaxed);
+    }
 
     if sh.mode == "c07" {
         let outs = outs.expect("c07 mode needs `out`");
@@ -302,6 +307,7 @@ fn main() {
         conc: Conc::new(variant), mode, pairs, files_every, seed,
         states: AtomicU64::new(0), transitions: AtomicU64::new(0), roundtrips: AtomicU64::new(0),
         pairs_checked: AtomicU64::new(0), rejected_cmds: AtomicU64::new(0), accepted_cmds: AtomicU64::new(0),
+        spelled_states: AtomicU64::new(0),
         violations: Mutex::new(Vec::new()), classes: Mutex::new(BTreeMap::new()), samples: Mutex::new(Vec::new()),
         verbs_seen: Mutex::new(BTreeMap::new()),
     });
@@ -341,6 +347,7 @@ fn main() {
         "states": sh.states.load(Ordering::SeqCst), "transitions": sh.transitions.load(Ordering::SeqCst),
         "accepted": sh.accepted_cmds.load(Ordering::SeqCst), "rejected": sh.rejected_cmds.load(Ordering::SeqCst),
         "roundtrips": sh.roundtrips.load(Ordering::SeqCst), "pairs": sh.pairs_checked.load(Ordering::SeqCst),
+        "spelled_states": sh.spelled_states.load(Ordering::SeqCst),
         "families": families, "verbs": *sh.verbs_seen.lock().unwrap(),
         "classes": *sh.classes.lock().unwrap(), "samples": *sh.samples.lock().unwrap()}));
 }
